@@ -19,10 +19,16 @@ def block_candidates1(class_name: str):
 def block_candidates2(class_name: str):
     return re.match(r'^[a-z]', class_name, re.I)
 
-def bem(node: AbbreviationNode, ancestors: list, config: Config):
+def bem(node: AbbreviationNode, ancestors: list, config: Config, block_lookup: dict=None):
+    """
+    :param block_lookup BEM data of already visited nodes, shared by all nodes
+    of one abbreviation (used to find block names of ancestors)
+    """
+    if block_lookup is None:
+        block_lookup = {}
     lookup = {}
     expand_class_names(node, lookup)
-    expand_short_notation(node, ancestors, config, lookup)
+    expand_short_notation(node, ancestors, config, lookup, block_lookup)
 
 def expand_class_names(node: AbbreviationNode, lookup: dict):
     """
@@ -48,7 +54,7 @@ def expand_class_names(node: AbbreviationNode, lookup: dict):
         update_class(node, ' '.join(data.class_names))
 
 
-def expand_short_notation(node: AbbreviationNode, ancestors: list, config: Config, lookup: dict):
+def expand_short_notation(node: AbbreviationNode, ancestors: list, config: Config, lookup: dict, block_lookup: dict):
     data = get_bem_data(node, lookup)
     class_names = []
     options = config.options
@@ -61,7 +67,7 @@ def expand_short_notation(node: AbbreviationNode, ancestors: list, config: Confi
         # parse element definition (could be only one)
         m = re_element.match(cl)
         if m:
-            prefix = ''.join((get_block_name(path, len(m.group(1)), config.context) + options.get('bem.element') + m.group(2)))
+            prefix = ''.join((get_block_name(path, len(m.group(1)), config.context, block_lookup) + options.get('bem.element') + m.group(2)))
             class_names.append(prefix)
             cl = cl[len(m.group(0)):]
 
@@ -69,7 +75,7 @@ def expand_short_notation(node: AbbreviationNode, ancestors: list, config: Confi
         m = re_modifier.match(cl)
         if m:
             if not prefix:
-                prefix = get_block_name(path, len(m.group(1)))
+                prefix = get_block_name(path, len(m.group(1)), None, block_lookup)
                 class_names.append(prefix)
 
             class_names.append(''.join( (prefix, options.get('bem.modifier'), m.group(2)) ))
@@ -112,11 +118,13 @@ def parse_bem(class_value=''):
     return BEMData(class_names, find_block_name(class_names))
 
 
-def get_block_name(ancestors: list, depth=0, context: dict=None, lookup={}):
+def get_block_name(ancestors: list, depth=0, context: dict=None, lookup: dict=None):
     """
     Returns block name for given `node` by `prefix`, which tells the depth of
     of parent node lookup
     """
+    if lookup is None:
+        lookup = {}
     max_parent_ix = 0
     parent_ix = max(len(ancestors) - depth, max_parent_ix)
     while max_parent_ix <= parent_ix:
